@@ -76,23 +76,43 @@ func (n *Node) UnmarshalXML(d *xml.Decoder, start xml.StartElement) error {
 
 // MarshalXML is a custom XML serializer used by xml.Marshal to serialize a
 // Node structure to XML.
-func (n Node) MarshalXML(e *xml.Encoder, start xml.StartElement) (err error) {
-	start.Attr = n.Attrs
-	start.Name = n.XMLName
-
-	err = e.EncodeToken(start)
-	if err != nil {
+//
+// Like UnmarshalXML it walks the tree with an explicit stack: how deep generic content
+// is nested is chosen by whoever sent it (the library itself serialises an unknown iq
+// payload again when it answers feature-not-implemented), and writing it must not grow
+// the goroutine stack with that depth. The tokens written, and therefore the bytes, are
+// those of the former recursive encoder: start tag, the children in order, the character
+// data if any, end tag.
+func (n Node) MarshalXML(e *xml.Encoder, _ xml.StartElement) error {
+	type frame struct {
+		node *Node
+		next int // index of the next child to write
+	}
+	startOf := func(x *Node) xml.StartElement { return xml.StartElement{Name: x.XMLName, Attr: x.Attrs} }
+	if err := e.EncodeToken(startOf(&n)); err != nil {
 		return err
 	}
-	err = e.EncodeElement(n.Nodes, xml.StartElement{Name: n.XMLName})
-	if err != nil {
-		return err
-	}
-	if n.Content != "" {
-		err = e.EncodeToken(xml.CharData(n.Content))
-		if err != nil {
+	stack := []frame{{node: &n}}
+	for len(stack) > 0 {
+		top := &stack[len(stack)-1]
+		if top.next < len(top.node.Nodes) {
+			child := &top.node.Nodes[top.next]
+			top.next++
+			if err := e.EncodeToken(startOf(child)); err != nil {
+				return err
+			}
+			stack = append(stack, frame{node: child})
+			continue
+		}
+		if top.node.Content != "" {
+			if err := e.EncodeToken(xml.CharData(top.node.Content)); err != nil {
+				return err
+			}
+		}
+		if err := e.EncodeToken(xml.EndElement{Name: top.node.XMLName}); err != nil {
 			return err
 		}
+		stack = stack[:len(stack)-1]
 	}
-	return e.EncodeToken(xml.EndElement{Name: start.Name})
+	return nil
 }
